@@ -34,8 +34,8 @@ func (r *reach) walk(t reflect.Type) {
 	case reflect.Ptr:
 		r.walk(t.Elem())
 	case reflect.Slice:
-		if t.Elem().Kind() == reflect.Uint8 {
-			return
+		if t == zoo.BytesType {
+			return // binary; a slice of a named octet type or a named byte slice is a list like any other
 		}
 		r.slices = append(r.slices, t)
 		r.walk(t.Elem())
